@@ -103,7 +103,7 @@ def step (s : St) (ws : List String) : St × String :=
       | .error _ => ({ n := none }, s!"h={b.height} open-error other")
       | .ok n' =>
         let head := if n'.cmeta.1 > 0 then (if (getBlock n' n'.cmeta.1 true).isSome then "readable" else "unreadable") else "readable"
-        let sk := match (Bxh.Ledger.getState n'.st 0 "height").2 with | some v => v | none => "-"
+        let sk := (match (Bxh.Ledger.getState n'.st 0 "height").2 with | some v => v | none => "-") ++ "/" ++ toString (Bxh.Ledger.getBalance n'.st 0).2
         ({ n := some n' }, s!"h={b.height} opened chain={n'.cmeta.1} state={n'.st.maxJ} blockfile={n'.blocks} head={head} statekey={sk}")
   | [] => (s, "bad-op")
 
